@@ -22,7 +22,8 @@ Suites (every real call is cached in a `run`; several cases may look at one run)
                 invocation recorded by the fake solver; oracle: documented exception classes,
                 first installed solver in `supported_satsolvers()` order, command line passed on.
   tmp         : (one per run) the private TMPDIR listing is the same before and after.
-Process handling and temporary files are OBSERVED here, not proven.
+Process handling and temporary files are OBSERVED here, not proven.  No known finding is left (D24, D28, D28c,
+D28d, D35 are fixed in /repo): every class must pass.
 """
 import atexit
 import json
@@ -48,7 +49,7 @@ RULE = ("text/lines/file: solver outputs assembled from comment, status and valu
         "options, unsupported name) × sameas (None, every supported name, unknown, empty); distinct = distinct "
         "(suite, request); non-trivial = the solver was actually started or an error class was decided")
 ASSUMPTIONS = [
-    "solver output is ASCII after .decode('ascii') (non-ASCII bytes: UnicodeDecodeError, compared at driver level only)",
+    "the fake solvers emit bytes 0..255; bytes >= 0x80 reach the parsers as U+FFFD (decode('ascii', errors='replace'))",
     "tokens handed to int() have at most 4300 digits in the correspondence runs (the model implements the limit)",
     "`installed` = names for which subprocess.Popen([name,'--help']) does not raise OSError",
 ]
@@ -285,12 +286,16 @@ def raw_literals(text_lines):
     return out
 
 
+def replaced(text):
+    """what .decode('ascii', errors='replace') makes of the solver's bytes"""
+    return "".join(c if ord(c) < 128 else "\ufffd" for c in text)
+
+
 def classify_stdout(text):
     """input class of a raw standard output (a label for the evidence and for known findings);
     several status lines that do not all say the same are `ambiguous-status`: the property does not
     say which of them counts (the code takes the last one; that is compared with the model only)"""
-    if any(ord(c) > 127 for c in text):
-        return "non-ascii"
+    text = replaced(text)
     verdicts = []
     nlits = 0
     for line in text.splitlines():
@@ -318,8 +323,7 @@ def classify_stdout(text):
 
 
 def classify_file(text):
-    if any(ord(c) > 127 for c in text):
-        return "non-ascii"
+    text = replaced(text)
     w = text.split()
     if not w:
         return "no-answer"
@@ -338,10 +342,8 @@ def classify_file(text):
 
 
 # recorded behaviour of the known findings: class label -> predicate on the observed outcome
-KNOWN_BEHAVIOUR = {
-    "garbage-token": lambda o: o == ["err", "ValueError"],
-    "non-ascii": lambda o: o == ["err", "UnicodeDecodeError"],
-}
+# (none at present: D24, D28, D28c, D28d, D35 are fixed in /repo)
+KNOWN_BEHAVIOUR = {}
 
 
 def relabel(case, label, observed):
@@ -373,12 +375,6 @@ def tmp_case(spec, label, nostart=None):
 
     def impl():
         run = do_run(spec)
-        ncalls = 1 + (1 if spec.get("issat") else 0)
-        nleak = len(run["leak_solve"]) + len(run.get("leak_issat", []))
-        expected_pattern = (nleak == ncalls and len(run["log"]) == (0 if nostart is not None else ncalls)
-                            and run["leak_content_ok"])
-        if case.cls == "filein_stdout" and nleak and not expected_pattern:
-            case.cls = "filein_stdout:deviates"
         if nostart is not None:
             return fmt_verdict(run["solve"])
         return observed_selection(run)
@@ -434,7 +430,7 @@ def build(suite, info):
 
         def oracle():
             o = do_run(spec)["solve"]
-            if label in ("garbage-token", "non-ascii", "no-answer"):
+            if label in ("garbage-token", "no-answer"):
                 return documented_failure(o, "solver output without a usable answer ({})".format(label))
             if label == "ambiguous-status":
                 if o[0] == "ok" and o[1][0] in (True, False) or o == ["err", "RuntimeError"]:
@@ -447,7 +443,7 @@ def build(suite, info):
                 return None if (b, w) == (False, None) else {"expected": [False, None], "observed": [b, w]}
             if b is not True:
                 return {"expected_verdict": True, "observed": [b, w]}
-            lits = raw_literals(text.splitlines())
+            lits = raw_literals(replaced(text).splitlines())
             if not isinstance(w, list) or sorted(w) != sorted(lits) or [abs(l) for l in w] != sorted(abs(l) for l in lits):
                 return {"expected": "the literals of the v lines ordered by variable", "literals": lits, "observed": w}
             return None
@@ -465,7 +461,7 @@ def build(suite, info):
 
         def oracle():
             o = do_run(spec)["solve"]
-            if label in ("garbage-token", "non-ascii", "no-answer"):
+            if label in ("garbage-token", "no-answer"):
                 return documented_failure(o, "result file without a usable answer ({})".format(label))
             if o[0] != "ok":
                 return {"expected": "a verdict", "observed": o, "class": label}
@@ -474,7 +470,7 @@ def build(suite, info):
                 return None if (b, w) == (False, None) else {"expected": [False, None], "observed": [b, w]}
             if b is not True:
                 return {"expected_verdict": True, "observed": [b, w]}
-            lits = [int(x) for x in text.split()[1:] if x != "0"]
+            lits = [int(x) for x in replaced(text).split()[1:] if x != "0"]
             if not isinstance(w, list) or sorted(w) != sorted(lits) or [abs(l) for l in w] != sorted(abs(l) for l in lits):
                 return {"expected": "the literals of the file ordered by variable", "literals": lits, "observed": w}
             return None
@@ -921,7 +917,7 @@ def _first_failure(cands):
         for c in (build(suite, info), build("tmp", {"spec": spec_of(suite, info)})):  # e2e only
             common.run_impl(c)
             r = common.run_oracle(c)
-            if r is not None and c.cls not in ("garbage-token", "non-ascii", "filein_stdout"):
+            if r is not None:
                 return {"suite": c.suite, "info": c.info, "cls": c.cls, "failure": r}
     return None
 
